@@ -161,6 +161,8 @@ def check_nested_depth(ctx):
             for v2, tg2 in arms:
                 if tg2 != tg:
                     others |= cfg.reach_forward(tg2)
+            if other is not None and other != tg:
+                others |= cfg.reach_forward(other)       # (`if let Nested(..)`: the fall-through is not part of the arm)
             region = mine - others
             rec = any(cfg.blocks[b].term.k == "call" and cfg.blocks[b].term.path == f.id for b in region)
             loop = any(cfg.reaches(b, bidx) for b in region)      # the arm leads back to the dispatch (`while let` / `loop`)
